@@ -1899,7 +1899,12 @@ void ScriptThread::GetArrayKeys(Event& ev)
 {
     const ScriptVariable& array = ev.GetValue(1);
 
-    const size_t arraySize = array.arraysize();
+    // count what the iterator delivers: arraysize() is 1 for strings and vectors
+    // (which iterate over their characters / components) and -1 for NIL
+    size_t arraySize = 0;
+    for (ScriptVariableIterator it(array); it; ++it) {
+        ++arraySize;
+    }
 
     ScriptVariable constArray;
     // create a const array for holding all keys
@@ -1919,7 +1924,12 @@ void ScriptThread::GetArrayValues(Event& ev)
 {
     const ScriptVariable& array = ev.GetValue(1);
 
-    const size_t arraySize = array.arraysize();
+    // count what the iterator delivers: arraysize() is 1 for strings and vectors
+    // (which iterate over their characters / components) and -1 for NIL
+    size_t arraySize = 0;
+    for (ScriptVariableIterator it(array); it; ++it) {
+        ++arraySize;
+    }
 
     ScriptVariable constArray;
     // create a const array for holding all values
